@@ -44,7 +44,7 @@ func VerifC07_A1_GetMessage() {
 	verifOwnPanics()
 	maxN := 14
 	if verifTier() > 0 {
-		maxN = 40
+		maxN = 24 // (40 as in C01 does not finish in 50 minutes with the display added)
 	}
 	n := verifParam("n", 0, maxN)
 	buf := verifBytes("buf", n)
